@@ -1,0 +1,150 @@
+//! Verification hooks into `program` (cargo feature `verif-hooks`, off by default).
+//! A child module, so that it can read the private fields of `Graph`, `Program`,
+//! `Memory` and `RunningProgram`.  Everything here is a read-only view, a wrapper, or a
+//! setter used only to put a `RunningProgram` into a chosen state for rendering tests.
+
+use super::*;
+use ast::{WireValue, WireWidth};
+use verif_hooks::{expr_sexp, take_iteration_log};
+
+/// One scheduled action: its kind, the wire it writes (if any), the wires it reads, and
+/// for assignments the expression (S-expression) and declared width.
+#[derive(Debug, Clone)]
+pub struct ActionView {
+    pub kind: &'static str,
+    pub writes: Option<String>,
+    pub reads: Vec<String>,
+    pub expr: Option<String>,
+    pub width: Option<Option<u8>>,
+}
+
+fn width_view(w: WireWidth) -> Option<u8> {
+    match w { WireWidth::Bits(n) => Some(n), WireWidth::Unlimited => None }
+}
+
+impl Program {
+    pub fn verif_actions(&self) -> Vec<ActionView> {
+        let mut result = Vec::new();
+        for action in &self.actions {
+            let view = match *action {
+                Action::Assign(ref name, ref expr, width) => {
+                    let mut reads: Vec<String> = expr.referenced_wires().into_iter().map(String::from).collect();
+                    reads.sort();
+                    let mut text = String::new();
+                    expr_sexp(expr, &mut text);
+                    ActionView { kind: "assign", writes: Some(name.clone()), reads: reads,
+                                 expr: Some(text), width: Some(width_view(width)) }
+                },
+                Action::ReadProgramRegister { ref number, ref out_port } =>
+                    ActionView { kind: "readreg", writes: Some(out_port.clone()), reads: vec!(number.clone()), expr: None, width: None },
+                Action::ReadMemory { ref is_read, ref address, ref out_port, bytes, .. } => {
+                    let mut reads = vec!(address.clone());
+                    if let Some(ref w) = *is_read { reads.push(w.clone()); }
+                    ActionView { kind: if bytes == 10 { "readimem" } else { "readmem" },
+                                 writes: Some(out_port.clone()), reads: reads, expr: None, width: None }
+                },
+                Action::WriteProgramRegister { ref number, ref in_port } =>
+                    ActionView { kind: "writereg", writes: None, reads: vec!(number.clone(), in_port.clone()), expr: None, width: None },
+                Action::WriteMemory { ref is_write, ref address, ref in_port, .. } => {
+                    let mut reads = vec!(address.clone(), in_port.clone());
+                    if let Some(ref w) = *is_write { reads.push(w.clone()); }
+                    ActionView { kind: "writemem", writes: None, reads: reads, expr: None, width: None }
+                },
+                Action::SetStatus { ref in_wire } =>
+                    ActionView { kind: "setstatus", writes: None, reads: vec!(in_wire.clone()), expr: None, width: None },
+            };
+            result.push(view);
+        }
+        result
+    }
+
+    /// (label, [(in, out, width)], [(out, default bits)], stall, bubble) per bank, in declaration order
+    pub fn verif_banks(&self) -> Vec<(String, Vec<(String, String, Option<u8>)>, Vec<(String, u128)>, String, String)> {
+        self.register_banks.iter().map(|bank| {
+            let signals = bank.signals.iter().map(|s| (s.0.clone(), s.1.clone(), width_view(s.2))).collect();
+            let mut defaults: Vec<(String, u128)> = bank.defaults.iter().map(|(k, v)| (k.clone(), v.bits)).collect();
+            defaults.sort();
+            (bank.label.clone(), signals, defaults, bank.stall_signal.clone(), bank.bubble_signal.clone())
+        }).collect()
+    }
+
+    pub fn verif_constants(&self) -> Vec<(String, u128, Option<u8>)> {
+        let mut result: Vec<(String, u128, Option<u8>)> =
+            self.constants.iter().map(|(k, v)| (k.clone(), v.bits, width_view(v.width))).collect();
+        result.sort();
+        result
+    }
+}
+
+impl RunningProgram {
+    pub fn verif_registers(&self) -> &[u64] { &self.registers }
+
+    pub fn verif_memory(&self) -> Vec<(u64, u8)> {
+        self.memory.data.iter().map(|(&k, &v)| (k, v)).collect()
+    }
+
+    pub fn verif_last_status(&self) -> Option<u8> { self.last_status }
+
+    pub fn verif_values(&self) -> Vec<(String, u128, Option<u8>)> {
+        let mut result: Vec<(String, u128, Option<u8>)> =
+            self.values.iter().map(|(k, v)| (k.clone(), v.bits, width_view(v.width))).collect();
+        result.sort();
+        result
+    }
+
+    pub fn verif_set_register(&mut self, index: usize, value: u64) { self.registers[index] = value; }
+
+    pub fn verif_set_memory(&mut self, bytes: &[(u64, u8)]) {
+        self.memory.data.clear();
+        for &(k, v) in bytes { self.memory.data.insert(k, v); }
+    }
+
+    pub fn verif_set_value(&mut self, name: &str, bits: u128, width: Option<u8>) {
+        let width = match width { Some(n) => WireWidth::Bits(n), None => WireWidth::Unlimited };
+        self.values.insert(String::from(name), WireValue { bits: bits, width: width });
+    }
+
+    pub fn verif_set_cycle(&mut self, cycle: u32) { self.cycle = cycle; }
+}
+
+/// `Memory::load_from_y86` on a byte string: the loaded bytes, or the error.
+pub fn load_y86(text: &[u8]) -> Result<Vec<(u64, u8)>, Error> {
+    let mut memory = Memory::new();
+    let mut reader = ::std::io::BufReader::new(text);
+    memory.load_from_y86(&mut reader)?;
+    Ok(memory.data.iter().map(|(&k, &v)| (k, v)).collect())
+}
+
+pub fn memory_read(bytes: &[(u64, u8)], address: u64, count: u8) -> (u128, Option<u8>) {
+    let mut memory = Memory::new();
+    for &(k, v) in bytes { memory.data.insert(k, v); }
+    let value = memory.read(address, count);
+    (value.bits, width_view(value.width))
+}
+
+pub fn memory_write(bytes: &[(u64, u8)], address: u64, value: u128, count: u8) -> Vec<(u64, u8)> {
+    let mut memory = Memory::new();
+    for &(k, v) in bytes { memory.data.insert(k, v); }
+    memory.write(address, value, count);
+    memory.data.iter().map(|(&k, &v)| (k, v)).collect()
+}
+
+pub fn dump_memory(bytes: &[(u64, u8)]) -> String {
+    let mut memory = Memory::new();
+    for &(k, v) in bytes { memory.data.insert(k, v); }
+    let mut out: Vec<u8> = Vec::new();
+    memory.dump_memory_y86(&mut out).expect("dump failed");
+    String::from_utf8_lossy(&out).into_owned()
+}
+
+/// The private graph sorter on an integer graph: nodes `0..num_nodes` are added first (in
+/// that order), then each edge is inserted in the order given.  Returns the sorter's
+/// answer and the iteration orders it observed (entries of `ITERATION_LOG`).
+pub fn graph_sort(num_nodes: u32, edges: &[(u32, u32)]) -> (Result<Vec<u32>, Vec<u32>>, Vec<String>) {
+    let mut graph: Graph<u32> = Graph::new();
+    for node in 0..num_nodes { graph.add_node(node); }
+    for &(from, to) in edges { graph.insert(from, to); }
+    take_iteration_log();
+    let result = graph.topological_sort();
+    (result, take_iteration_log())
+}
